@@ -24,9 +24,10 @@ import numpy as np
 from .. import universe as U
 from .. import meshgen as G
 from .. import elements as EL
+from .. import meshops as MO
 from ..core import guarded, MachineryError
 from ..par import Pool
-from ..project import fx
+from ..project import fx, find_scale
 
 RULE = ('scenario = one mesh (given vertex numbering, cell order, local vertex orders, constructor) x one element; '
         'events = the one-sided traces of every global DOF on every interior facet; distinct = distinct '
@@ -55,28 +56,6 @@ def facet_quadrature(kind, at):
     return X, np.full(X.shape[1], 1. / X.shape[1])
 
 
-def build_mesh(rec):
-    import skfem
-    kind = rec['kind']
-    p = np.array(rec['p'], dtype=np.float64)
-    t = np.array(rec['t'], dtype=np.int64)
-    if kind == 'tri' and rec.get('ctor') == 'nosort':
-        m = skfem.MeshTri(p, t, sort_t=False)
-    else:
-        m = U.make(kind, p, t)
-    cv = rec.get('curved')
-    if cv:
-        cls = getattr(skfem, SECOND[kind])
-        m2 = cls.from_mesh(m)
-        d = m2.doflocs.copy()
-        nv = p.shape[1]
-        rng = np.random.default_rng(cv['seed'])
-        off = rng.integers(-1, 2, size=(d.shape[0], d.shape[1] - nv)) / float(cv['den'])
-        d[:, nv:] += off
-        m = replace(m2, doflocs=d)
-    return m
-
-
 def _fxa(a):
     out = [fx(v) for v in np.asarray(a, dtype=np.float64).ravel().tolist()]
     if any(o is None for o in out):
@@ -84,46 +63,51 @@ def _fxa(a):
     return out
 
 
-def execute(rec):
+def _observe_mesh(spec, name, meta, e0, e1, events):
+    """One mesh of the scenario: Setup event + one Group event per observation group.  e0 / e1 are the element
+    OBJECTS of the two one-sided bases; they are reused over all meshes of the scenario."""
     from skfem.assembly.basis.interior_facet_basis import InteriorFacetBasis
-    kind, name = rec['kind'], rec['elem']
-    meta = EL.CATALOGUE[name]
+    kind = spec['kind']
     groups = GROUPS.get(meta['cclass'], [])
+    curved = 1 if any(op[0] == 'curved' for op in spec.get('ops', [])) else 0
     setup = {'a': 'Setup', 'elem': name, 'tolclass': meta['tol'], 'kind': kind, 'p': [], 'fv': [], 't': [], 'ndofs': 0,
-             'groups': [{'q': q, 'at': at} for q, at in groups], 'err': '', 'curved': 1 if rec.get('curved') else 0}
-    events = [setup]
+             'groups': [{'q': q, 'at': at} for q, at in groups], 'err': '', 'curved': curved}
+    events.append(setup)
 
     def prepare():
-        m = build_mesh(rec)
-        e = EL.make(name)
-        return m, e
-    me, err = guarded(prepare, 60)
+        m = MO.build(spec)
+        # same-object history: use the mesh, call operations on it, discard their results, keep using the mesh
+        MO.touch(m, spec, lambda mm: InteriorFacetBasis(mm, e0, side=0, intorder=2))
+        return m
+    m, err = guarded(prepare, 90)
     if err:
         setup['err'] = err
-        return events
-    m, e = me
+        return
     find = np.nonzero(m.f2t[1] != -1)[0]
-    nvert = np.array(rec['p']).shape[1]
-    if not rec.get('curved'):
-        setup['p'] = [[int(x) for x in col] for col in np.array(rec['p']).T]
+    nvert = int(m.t.max()) + 1
+    if not curved:
+        P = np.asarray(m.p)[:, :nvert]
+        S = find_scale(P, 4)
+        if S is not None:
+            setup['p'] = [[int(x) for x in col] for col in np.rint(P * S).T]
     setup['fv'] = [[int(v) + 1 for v in m.facets[:, f]] for f in find]
     setup['t'] = [[int(v) + 1 for v in col] for col in np.asarray(m.t).T]
-    nd, err = guarded(lambda: int(InteriorFacetBasis(m, EL.make(name), side=0, facets=find[:1], intorder=1).N), 60)
-    setup['ndofs'] = nd if not err else 1
     if len(find) == 0:
         setup['err'] = 'NoInteriorFacet'
-        return events
+        return
+    nd, err = guarded(lambda: int(InteriorFacetBasis(m, EL.make(name), side=0, facets=find[:1], intorder=1).N), 60)
+    setup['ndofs'] = nd if not err else 1
     for q, at in groups:
         ev = {'a': 'Group', 'q': q, 'at': at, 'ncomp': 0, 'nq': 0, 'items': [], 'err': '', 'tind0': [], 'tind1': []}
 
         def observe():
             kw = {}
             if at == 'all' or kind == 'line':
-                kw['intorder'] = int(min(max(e.maxdeg, 1), 8)) + 1
+                kw['intorder'] = int(min(max(e0.maxdeg, 1), 8)) + 1
             else:
                 kw['quadrature'] = facet_quadrature(kind, at)
-            fb0 = InteriorFacetBasis(m, e, side=0, facets=find, **kw)
-            fb1 = InteriorFacetBasis(m, EL.make(name), side=1, facets=find, **kw)
+            fb0 = InteriorFacetBasis(m, e0, side=0, facets=find, **kw)
+            fb1 = InteriorFacetBasis(m, e1, side=1, facets=find, **kw)
             if not np.array_equal(fb0.find, fb1.find) or not np.array_equal(fb0.X, fb1.X):
                 raise MachineryError('the two one-sided bases do not share facets / quadrature')
             N = fb0.N
@@ -152,12 +136,26 @@ def execute(rec):
             setup['ndofs'], ev['ncomp'], ev['nq'], ev['items'] = int(obs[0]), int(obs[1]), int(obs[2]), obs[3]
             ev['tind0'], ev['tind1'] = obs[4], obs[5]
         events.append(ev)
+
+
+def execute(rec):
+    name = rec['elem']
+    meta = EL.CATALOGUE[name]
+    events = []
+    e0, e1 = EL.make(name), EL.make(name)          # ONE element object per side for the whole mesh sequence
+    for spec in rec['meshes']:
+        _observe_mesh(spec, name, meta, e0, e1, events)
     return events
 
 
 def scenario(sid, rec):
-    tags = {'kind': rec['kind'], 'family': rec['family'], 'elem': rec['elem'], 'ctor': rec.get('ctor', 'default'),
-            'curved': 1 if rec.get('curved') else 0, 'shifted': int(rec.get('shifted', 0))}
+    specs = rec['meshes']
+    tags = {'kind': rec['kind'], 'family': rec['family'], 'elem': rec['elem'],
+            'ctor': specs[0]['start'].get('ctor', 'default'),
+            'curved': 1 if any(op[0] == 'curved' for sp in specs for op in sp.get('ops', [])) else 0,
+            'shifted': int(rec.get('shifted', 0)),
+            'history': 1 if any(sp.get('ops') or sp.get('touch') for sp in specs) else 0,
+            'reuse': 1 if len(specs) > 1 else 0}
     return {'id': sid, 'recipe': rec, 'tags': tags, 'events': execute(rec)}
 
 
@@ -167,11 +165,15 @@ def _scen(args):
 
 # ------------------------------------------------------------------------------------------ inputs
 
-def _rec(kind, p, t, elem, fam, **kw):
-    r = {'driver': 'jump', 'kind': kind, 'family': fam, 'elem': elem,
-         'p': np.asarray(p).astype(int).tolist(), 't': np.asarray(t).astype(int).tolist()}
-    r.update(kw)
-    return r
+def _rec(kind, p, t, elem, fam, ctor='default', curved=None, shifted=0):
+    spec = MO.from_pt(kind, p, t, ctor=ctor)
+    if curved:
+        spec['ops'] = [['curved', curved['seed'], curved['den']]]
+    return {'driver': 'jump', 'kind': kind, 'family': fam, 'elem': elem, 'shifted': int(shifted), 'meshes': [spec]}
+
+
+def _hrec(kind, elem, fam, specs, shifted=0):
+    return {'driver': 'jump', 'kind': kind, 'family': fam, 'elem': elem, 'shifted': int(shifted), 'meshes': specs}
 
 
 def meshes_for(kind, rng, th):
@@ -235,34 +237,141 @@ def admissible(name, meta, flags):
         return False                       # ElementGlobal: keep |coordinates| small (conditioning of the Vandermonde matrix)
     if name == 'ElementHexRT1' and flags.get('general'):
         return False                       # "Raviart-Thomas for cube": affine images only
+    if flags.get('unsorted') and not direction_free(meta):
+        return False                       # triangles without per-cell sorting (sort_t=False, oriented()): outside the claim
     return True
+
+
+def direction_free(meta):
+    """Families whose facet functions do not depend on a direction (one DOF per facet, no signed normal derivative)."""
+    return (not meta['multifacet']) and meta['cclass'] in ('H1', 'Hdiv', 'Hcurl', 'FacetMid') and meta['tol'] != 'global'
+
+
+# meshes reached through OPERATION HISTORIES from the library's own constructors (small coordinates; everything
+# stays dyadic).  (family, spec, flags)
+def history_specs(kind, rng):
+    r = lambda n: [int(x) for x in rng.integers(0, 1000, n)]
+    T = lambda axes: {'kind': kind, 'init': 'tensor', 'axes': axes}
+    out = []
+
+    def add(fam, start, ops, flags=None, final=None):
+        out.append((fam, {'kind': final or kind, 'start': start, 'ops': ops, 'touch': []}, dict(flags or {})))
+    if kind == 'line':
+        ax = [[0, 1, 2, 4]]
+        add('hist-refined', T(ax), [['refined', 1]])
+        add('hist-adaptive', T(ax), [['refined_marked', r(2)], ['refined_marked', r(2)]])
+        add('hist-adaptive-uniform', T(ax), [['refined_marked', r(1)], ['refined', 1]])
+        add('hist-restrict', T(ax), [['refined', 1], ['restrict', list(range(1, 5))]])
+        add('hist-plus-mirrored', T(ax), [['plus_translated', 0, 4], ['mirrored', 0]])
+    elif kind == 'tri':
+        ax = [[0, 1, 2], [0, 1, 2]]
+        add('hist-refined', T(ax), [['refined', 1]])
+        add('hist-adaptive', T(ax), [['refined_marked', r(2)]])
+        add('hist-adaptive-adaptive', T(ax), [['refined_marked', r(2)], ['refined_marked', r(3)]])
+        add('hist-adaptive-uniform', {'kind': 'tri', 'init': 'default'}, [['refined', 1], ['refined_marked', r(2)], ['refined', 1]])
+        add('hist-restrict', T(ax), [['refined', 1], ['restrict', list(range(3, 14))]])
+        add('hist-remove-elements', T(ax), [['refined_marked', r(2)], ['remove_elements', r(2)]])
+        add('hist-plus-mirrored', T(ax), [['plus_translated', 0, 2], ['mirrored', 1]])
+        add('hist-sqsymmetric', {'kind': 'tri', 'init': 'sqsymmetric'}, [['refined_marked', r(2)]])
+        add('hist-from-quads', {'kind': 'quad', 'init': 'tensor', 'axes': ax}, [['to_meshtri']])
+        add('hist-from-quads-x', {'kind': 'quad', 'init': 'tensor', 'axes': ax}, [['to_meshtri_x'], ['refined_marked', r(2)]])
+        add('hist-boundaries-scaled', T(ax), [['with_boundaries'], ['scaled', 0, 2], ['refined_marked', r(2)]])
+        add('hist-oriented', T(ax), [['refined_marked', r(2)], ['oriented']], {'unsorted': 1})
+    elif kind == 'quad':
+        ax = [[0, 1, 2], [0, 1, 3]]
+        add('hist-refined', T(ax), [['refined', 1]], {'rect': 1})
+        add('hist-restrict', T(ax), [['refined', 1], ['restrict', list(range(2, 14))]], {'rect': 1})
+        add('hist-plus-mirrored', T(ax), [['plus_translated', 0, 2], ['mirrored', 1]], {'rect': 1})
+        add('hist-remove-scaled', {'kind': 'quad', 'init': 'default'}, [['refined', 2], ['remove_elements', r(2)], ['scaled', 1, 2]],
+            {'rect': 1})
+    elif kind == 'tet':
+        ax = [[0, 1, 2], [0, 1], [0, 1]]
+        add('hist-refined', T(ax), [['refined', 1]])
+        add('hist-adaptive', T(ax), [['refined_marked', r(2)]])
+        add('hist-adaptive-uniform', {'kind': 'tet', 'init': 'default'}, [['refined_marked', r(1)], ['refined', 1]])
+        add('hist-restrict-mirrored', T(ax), [['refined', 1], ['restrict', list(range(5, 40))], ['mirrored', 0]])
+        add('hist-plus', T(ax), [['plus_translated', 0, 2], ['refined_marked', r(2)]])
+        add('hist-from-hexes', {'kind': 'hex', 'init': 'tensor', 'axes': ax}, [['to_meshtet']])
+        add('hist-oriented', T(ax), [['oriented'], ['refined_marked', r(2)]])
+    elif kind == 'hex':
+        ax = [[0, 1, 2], [0, 1], [0, 2]]
+        add('hist-refined', T(ax), [['refined', 1]], {'rect': 1})
+        add('hist-restrict', T(ax), [['refined', 1], ['restrict', list(range(1, 13))]], {'rect': 1})
+        add('hist-plus-mirrored', T(ax), [['plus_translated', 0, 2], ['mirrored', 2]], {'rect': 1})
+    return out
+
+
+# operations called ON a mesh in use, results discarded (same-object histories)
+TOUCH = {'line': [['refined', 1], ['refined_marked', [0, 2]], ['restrict', [0, 1]], ['mirrored', 0], ['scaled', 0, 2],
+                  ['with_boundaries'], ['element_finder'], ['boundary_queries'], ['plus_translated', 0, 16]],
+         'tri': [['oriented'], ['refined_marked', [0, 3]], ['refined', 1], ['restrict', [0, 1, 2]], ['remove_elements', [1]],
+                 ['mirrored', 0], ['scaled', 0, 2], ['translated', 1, 1], ['with_boundaries'], ['element_finder'],
+                 ['boundary_queries'], ['plus_translated', 0, 16]],
+         'quad': [['refined', 1], ['restrict', [0, 1]], ['remove_elements', [1]], ['mirrored', 0], ['scaled', 0, 2],
+                  ['to_meshtri'], ['to_meshtri_x'], ['with_boundaries'], ['element_finder'], ['boundary_queries'],
+                  ['plus_translated', 0, 16]],
+         'tet': [['oriented'], ['refined_marked', [0, 3]], ['refined', 1], ['restrict', [0, 1, 2]], ['mirrored', 0],
+                 ['scaled', 0, 2], ['with_boundaries'], ['element_finder'], ['boundary_queries'], ['plus_translated', 0, 16]],
+         'hex': [['refined', 1], ['restrict', [0]], ['mirrored', 0], ['scaled', 0, 2], ['to_meshtet'], ['with_boundaries'],
+                 ['element_finder'], ['boundary_queries'], ['plus_translated', 0, 16]]}
 
 
 def generate(tier, seed):
     th = tier == 'thorough'
     rng = np.random.default_rng(seed + 3)
     recs = []
-    cache = {}
-    for name, meta in EL.CATALOGUE.items():
+    cache, hcache = {}, {}
+    for en, (name, meta) in enumerate(EL.CATALOGUE.items()):
         if meta['cclass'] is None:
             continue
         kind = meta['kind']
         if kind not in cache:
             cache[kind] = meshes_for(kind, rng, th)
+            hcache[kind] = history_specs(kind, rng) if kind != 'wedge' else []
         for fam, p, t, flags in cache[kind]:
             if not admissible(name, meta, flags):
                 continue
             recs.append(_rec(kind, p, t, name, fam, shifted=flags.get('shifted', 0)))
         # triangle meshes with sort_t=False: inside the claim only for families whose facet functions do not
         # depend on a direction (one DOF per facet and no signed normal derivative)
-        if kind == 'tri' and not meta['multifacet'] and meta['cclass'] in ('H1', 'Hdiv', 'Hcurl', 'FacetMid') \
-                and meta['tol'] != 'global':
+        if kind == 'tri' and direction_free(meta):
             fam, p, t, _ = cache[kind][1]
             recs.append(_rec(kind, p, t, name, fam + '-nosort', ctor='nosort'))
         # curved second-order meshes: H1 families
         if meta['cclass'] == 'H1' and kind in SECOND and meta['tol'] != 'global' and not name.startswith('ElementQuadP'):
             fam, p, t, flags = cache[kind][0]
             recs.append(_rec(kind, p, t, name, fam + '-curved', curved={'seed': int(rng.integers(0, 2 ** 31)), 'den': 32}))
+        # ---- meshes reached through operation histories (quick: the adaptive ones + a rotating selection)
+        hs = [h for h in hcache[kind] if admissible(name, meta, h[2])]
+        if hs and not th:
+            keep = [h for h in hs if 'adaptive' in h[0]][:2]
+            rest = [h for h in hs if h not in keep]
+            keep += [rest[(en + j) % len(rest)] for j in range(min(2, len(rest)))]
+            hs = keep
+        for fam, spec, flags in hs:
+            recs.append(_hrec(kind, name, fam, [spec]))
+        # ---- same-object histories: operations called on the mesh in use, results discarded
+        adm = [(fam, p, t, flags) for fam, p, t, flags in cache[kind] if admissible(name, meta, flags)]
+        if adm and kind in TOUCH:
+            for j in range(2 if th else 1):
+                fam, p, t, flags = adm[(en + j) % len(adm)]
+                spec = MO.from_pt(kind, p, t, touch=TOUCH[kind])
+                recs.append(_hrec(kind, name, fam + '-touched', [spec], shifted=flags.get('shifted', 0)))
+            if hs:
+                fam, spec, flags = hs[0]
+                recs.append(_hrec(kind, name, fam + '-touched', [dict(spec, touch=TOUCH[kind])]))
+        # ---- ONE element object per side driven over a sequence of meshes, incl. pairs with equal cell counts
+        if adm:
+            fam, p, t, flags = adm[en % len(adm)]
+            p2, t2 = G.shuffle(kind, p, t, rng, local=(kind != 'quad' and kind != 'hex') or bool(flags.get('shifted')))
+            seq = [MO.from_pt(kind, p, t), MO.from_pt(kind, p2, t2)]
+            fam3, p3, t3, flags3 = adm[(en + 1) % len(adm)]
+            seq.append(MO.from_pt(kind, p3, t3))
+            if hs:
+                seq.append(hs[-1][1])
+            seq.append(MO.from_pt(kind, p, np.asarray(t)[:, ::-1]))            # same cells, reversed cell order
+            recs.append(_hrec(kind, name, fam + '-element-reused', seq,
+                              shifted=max(flags.get('shifted', 0), flags3.get('shifted', 0))))
     return recs
 
 
@@ -310,9 +419,8 @@ def replay_recipes(out_file, tier, rng):
         p = (np.array(u['p']).T * 2).tolist()
         t = (np.array(u['t']).T - 1).tolist()
         for name in REPRESENTATIVES[key]:
-            r = _rec(kind, p, t, name, 'TLC-universe', shifted=1 if (kind in ('quad', 'hex') and key != 'quad-unshifted') else 0)
-            if key == 'tri-asgiven':
-                r['ctor'] = 'nosort'
+            r = _rec(kind, p, t, name, 'TLC-universe', ctor='nosort' if key == 'tri-asgiven' else 'default',
+                     shifted=1 if (kind in ('quad', 'hex') and key != 'quad-unshifted') else 0)
             recs.append(r)
     return recs
 
@@ -331,7 +439,7 @@ def run(ctx):
         ctx.validate('TraceC03', rscs, jvms=8)
     finally:
         procs.close()
-    keys = {json.dumps([r['kind'], r['p'], r['t'], r.get('ctor'), r['elem'], r.get('curved')]) for r in recs + rrecs}
+    keys = {json.dumps([r['elem'], r['meshes']]) for r in recs + rrecs}
     ctx.notes['distinct_nontrivial'] = len(keys)
     ctx.notes['scenarios_from_tlc_universe'] = len(rrecs)
     ctx.notes['elements_driven'] = sorted({r['elem'] for r in recs})
